@@ -24,6 +24,7 @@ from vf.hyp import drive, st
 from vf.runner import Collector
 
 ID = "C17"
+EARLY_ATTRIBUTION = True  # region predicates are cheap scans of the stored case
 LEVEL = "exploration"
 EXHAUSTIVE = True
 RULE = ("Bounded-exhaustive over every (domain, opset version N, method) of the 33 generated opset objects in "
